@@ -11,10 +11,10 @@ type Chan[T any] struct {
 
 //go:norace
 func NewChan[T any](n int) *Chan[T] {
-	if n <= 0 {
-		// rendezvous channels do not occur in go-redisemu; model them as 1-slot buffers would be
-		// unsound, so refuse loudly.
-		panic("verifrt: unbuffered channels are not supported by the shim")
+	// n == 0: an unbuffered channel may be used as a close-only signal (receive blocks until
+	// close); a send on it (a rendezvous) is not modelled and refused loudly in Send.
+	if n < 0 {
+		panic("verifrt: negative channel capacity")
 	}
 	return &Chan[T]{capN: n}
 }
@@ -55,6 +55,9 @@ func torndown() bool { return Cur != nil && Cur.teardown }
 
 //go:norace
 func Send[T any](c *Chan[T], v T) {
+	if c != nil && c.capN == 0 {
+		panic("verifrt: send on an unbuffered channel (rendezvous) is not supported by the shim")
+	}
 	Point(OpSend, c, c.sendReady)
 	if torndown() {
 		return
@@ -114,6 +117,7 @@ func Close[T any](c *Chan[T]) {
 type Case struct {
 	ready func() bool
 	do    func() (any, bool)
+	obj   any
 }
 
 type Sel struct {
@@ -134,13 +138,13 @@ func (c *Chan[T]) recvAny() (any, bool) { v, ok := c.doRecv(); return v, ok }
 func CaseRecv(ch any) Case {
 	switch c := ch.(type) {
 	case recvLike:
-		return Case{ready: c.recvReady, do: c.recvAny}
+		return Case{ready: c.recvReady, do: c.recvAny, obj: ch}
 	case <-chan struct{}:
 		return realCase(c)
 	case chan struct{}:
 		return realCase(c)
 	case nil:
-		return Case{ready: func() bool { return false }}
+		return Case{ready: func() bool { return false }, obj: RealChan}
 	}
 	panic(fmt.Sprintf("verifrt: unsupported channel type %T in select", ch))
 }
@@ -150,6 +154,7 @@ func CaseRecv(ch any) Case {
 //go:norace
 func realCase(c <-chan struct{}) Case {
 	return Case{
+		obj: RealChan,
 		ready: func() bool {
 			if c == nil {
 				return false
@@ -174,7 +179,10 @@ func realCase(c <-chan struct{}) Case {
 
 //go:norace
 func CaseSend[T any](c *Chan[T], v T) Case {
-	return Case{ready: c.sendReady, do: func() (any, bool) { c.doSend(v); return nil, true }}
+	if c != nil && c.capN == 0 {
+		panic("verifrt: send on an unbuffered channel (rendezvous) is not supported by the shim")
+	}
+	return Case{ready: c.sendReady, do: func() (any, bool) { c.doSend(v); return nil, true }, obj: c}
 }
 
 //go:norace
@@ -190,7 +198,20 @@ func Select(hasDefault bool, cases ...Case) *Sel {
 		}
 		return false
 	}
-	Point(OpSelect, nil, anyReady)
+	objs := make([]any, 0, len(cases))
+	for _, c := range cases {
+		objs = append(objs, c.obj)
+	}
+	mask := func() uint64 {
+		var m uint64
+		for i, c := range cases {
+			if i < 64 && c.ready() {
+				m |= 1 << uint(i)
+			}
+		}
+		return m
+	}
+	Point(OpSelect, &SelInfo{Objs: objs, Mask: mask}, anyReady)
 	if torndown() {
 		return &Sel{I: -1}
 	}
